@@ -5,6 +5,10 @@
        answers of hdr.Validate() and header.Verify(trusted, untrusted);
    (E) end-to-end cases: a real syncing Manager (SyncLoop, store loops, DA includer under synctest) fed an
        interleaving of genuine and adversarial items: per item outcome, and the end state.
+       A crowded DA height arrives as ONE item [IDAHeight]: the real node reads it with processNextDAHeaderAndData
+       from a DA double (GetIDs + batched Get through types.RetrieveWithHelpers); observed: how many of its blobs
+       got a DA-included mark, and the (first id, count) of every Get call.  The blob list is written run-length
+       ([rl]) and expanded here.
    [mismatches] lists the cases on which the model disagrees (index, what differs). *)
 From Coq Require Import NArith ZArith List Bool.
 From Verif Require Import Model.Types Model.Admission.
@@ -18,6 +22,13 @@ Fixpoint list_eqb {A} (e : A -> A -> bool) (a b : list A) : bool :=
   | [], [] => true
   | x :: a', y :: b' => e x y && list_eqb e a' b'
   | _, _ => false
+  end.
+
+(* run-length description of the blobs of a DA height: n copies of b for each (n, b), in id order *)
+Fixpoint rl (segs : list (N * blob)) : list blob :=
+  match segs with
+  | [] => []
+  | (n, b) :: r => repeat b (N.to_nat n) ++ rl r
   end.
 
 Record da_obs := { ob_handled : bool; ob_hevent : bool; ob_hmark : bool; ob_devent : bool; ob_dmark : bool;
@@ -49,7 +60,9 @@ Record adm_case := { ac_gen : genesis; ac_now : Z; ac_blobs : list (blob * da_ob
 Record e2e_case := {
   ec_gen : genesis; ec_now : Z; ec_tb : exec_tbl; ec_app0 : root; ec_t0 : Z;
   ec_items : list item;
-  ec_outs : list N;                 (* per item: 0 nothing, 1 handled-skipped, 2 admitted/stored, 3 panic *)
+  ec_outs : list N;                 (* per item: 0 nothing, 1 handled-skipped, 2 admitted/stored, 3 panic;
+                                       a DA height: 10 + number of its blobs that got a DA-included mark *)
+  ec_fetch : list (list (N * N));   (* per IDAHeight item, in order: the da.Get calls (index of the first id, number of ids) *)
   ec_height : N; ec_halted : bool; ec_crashed : bool; ec_dainc : N;
   ec_applied : list header;         (* headers of the stored blocks, newest first *)
   ec_app : root;                    (* lastState.AppHash *)
@@ -62,8 +75,18 @@ Definition store_height_h (l : list sheader) : N := match l with [] => 0%N | t :
 Definition store_height_d (l : list data) : N :=
   match l with [] => 0%N | t :: _ => match d_meta t with Some m => m_height m | None => 0%N end end.
 
+Definition pair_eqb (a b : N * N) : bool := (fst a =? fst b)%N && (snd a =? snd b)%N.
+(* the Get calls of the DA heights the node read (a crashed node reads nothing) *)
+Fixpoint height_calls (g : genesis) (now : Z) (tb : exec_tbl) (s : nstate) (l : list item) : list (list (N * N)) :=
+  match l with
+  | [] => []
+  | i :: r =>
+      (match i with IDAHeight bl => if n_crashed s then [] else [get_calls bl] | _ => [] end) ++
+      height_calls g now tb (fst (node_step g now tb s i)) r
+  end.
+
 (* 1 = a DA blob observable differs, 2 = a gossip observable differs, 3 = per-item outcomes differ,
-   4 = end state differs *)
+   4 = end state differs, 5 = the Get calls of a DA height differ *)
 Definition check_case (c : case) : list N :=
   match c with
   | CAdm a =>
@@ -78,7 +101,10 @@ Definition check_case (c : case) : list N :=
           list_eqb header_eqb (map (fun b => sh_hdr (fst b)) (n_applied s)) (ec_applied e) &&
           (s_app (n_state s) =? ec_app e)%N &&
           (store_height_h (n_hstore s) =? ec_hstore e)%N && (store_height_d (n_dstore s) =? ec_dstore e)%N
-       then [] else [4%N])
+       then [] else [4%N]) ++
+      (if list_eqb (list_eqb pair_eqb)
+            (height_calls (ec_gen e) (ec_now e) (ec_tb e) (node_init (ec_gen e) (ec_app0 e) (ec_t0 e)) (ec_items e)) (ec_fetch e)
+       then [] else [5%N])
   end.
 
 Fixpoint mismatches_from (i : N) (cs : list case) : list (N * list N) :=
